@@ -217,4 +217,208 @@ theorem insertN_spec (hash : K → Nat) (f : Nat) (t : Table K V) (o : List Nat)
         refine ⟨_, rfl, htags, rfl, Or.inl ⟨rfl, o' ++ [n'], hinv2, ?_⟩⟩
         rw [absOf_place r.t t' o' n' k v c (by rw [hinv'.len_slots]; exact hn') hno' hslots2, habs']
 
+/-! ### lh_table_resize to an arbitrary size: the new table may itself grow while it is refilled -/
+
+/-- lh_table_resize stores the size of the table it has built (`t->size = new_t->size`) -/
+theorem resizeKeepsArgSize_false : lhResizeKeepsArgSize = false := by decide
+
+/-- what lh_table_insert_w_hash does on `f` levels of resize recursion, for every table large enough
+for `f` doublings to reach INT_MAX: append, or refuse leaving the table alone (only when it already
+holds more than INT_MAX/4 entries) -/
+def InsOK (hash : K → Nat) (f : Nat) : Prop :=
+  ∀ (t : Table K V) (o : List Nat) (k : K) (v : V) (c : Bool), Inv hash t o →
+    (∀ (p : Nat) (v' : V) (c' : Bool), t.slots[p]? ≠ some (Slot.live k v' c')) → intMax ≤ t.size * 2 ^ f →
+    ∃ r, insertN hash f t k v (hash k) c = .ok r ∧ r.tags = [] ∧ r.freed = [] ∧
+      ((r.ret = 0 ∧ ∃ o', Inv hash r.t o' ∧ absOf r.t o' = absOf t o ++ [(k, v)] ∧ t.size ≤ r.t.size) ∨
+       (r.ret = -1 ∧ r.t = t ∧ intMax / 4 ≤ o.length))
+
+theorem rebuildLoop_gen (hash : K → Nat) (f : Nat) (hins : InsOK (V := V) hash f) (t : Table K V) (o : List Nat)
+    (h : Inv hash t o) (n : Nat) (hfuel : intMax ≤ n * 2 ^ f) :
+    ∀ (rest done : List Nat) (nt : Table K V) (o1 : List Nat) (fuel : Nat),
+      o = done ++ rest → Inv hash nt o1 → n ≤ nt.size → absOf nt o1 = absOf t done → o1.length = done.length →
+      rest.length < fuel →
+      ∃ r, rebuildLoop (insFn hash f) t fuel rest.head? nt = .ok r ∧
+        ((r = none ∧ intMax / 4 ≤ o.length) ∨
+         ∃ nt' o', r = some nt' ∧ Inv hash nt' o' ∧ n ≤ nt'.size ∧ absOf nt' o' = absOf t o ∧ o'.length = o.length) := by
+  intro rest
+  induction rest with
+  | nil =>
+    intro done nt o1 fuel ho hnt hsz habs hlen hf
+    cases fuel with
+    | zero => simp at hf
+    | succ fuel =>
+      simp only [List.head?_nil, rebuildLoop]
+      rw [List.append_nil] at ho
+      subst ho
+      exact ⟨_, rfl, Or.inr ⟨nt, o1, rfl, hnt, hsz, habs, hlen⟩⟩
+  | cons e rest ih =>
+    intro done nt o1 fuel ho hnt hsz habs hlen hf
+    cases fuel with
+    | zero => simp at hf
+    | succ fuel =>
+      have heo : e ∈ o := by rw [ho]; simp
+      obtain ⟨k, v, c, hs⟩ := (h.live_iff e).mp heo
+      have hes : e < t.size := h.mem_lt heo
+      have hnd : (done ++ e :: rest).Nodup := ho ▸ h.nodup
+      have hnx : t.next[e]? = some rest.head? := by
+        rw [h.next_eq e hes, ho, succOf_append_cons done rest e hnd]
+      simp only [List.head?_cons, rebuildLoop, hs, hnx]
+      have hdl : done.length < o.length := by rw [ho]; simp
+      have hedone : e ∉ done := by
+        intro hm
+        rw [List.nodup_append] at hnd
+        exact hnd.2.2 e hm e (by simp) rfl
+      have hknew : ∀ (p : Nat) (v' : V) (c' : Bool), nt.slots[p]? ≠ some (Slot.live k v' c') := by
+        rw [← not_mem_keys_iff hash nt o1 hnt k, habs, mem_keys_absOf]
+        rintro ⟨i, hi, v', c', hs'⟩
+        have := h.uniq e i k v c v' c' hs hs'
+        subst this
+        exact hedone hi
+      have hfl : intMax ≤ nt.size * 2 ^ f := Nat.le_trans hfuel (Nat.mul_le_mul_right _ hsz)
+      obtain ⟨r, hr, _, _, hcase⟩ := hins nt o1 k v c hnt hknew hfl
+      have hinsfn : insFn hash f nt k v c = insertN hash f nt k v (hash k) c := rfl
+      rw [hinsfn, hr]
+      dsimp only
+      rcases hcase with ⟨hret, o1', hinv', habs', hsz'⟩ | ⟨hret, _, hbig⟩
+      · rw [if_neg (by rw [hret]; decide)]
+        have habs2 : absOf r.t o1' = absOf t (done ++ [e]) := by
+          rw [habs', habs]
+          unfold absOf
+          rw [List.filterMap_append]
+          simp only [List.filterMap_cons, List.filterMap_nil, entryAt_live t e k v c hs]
+        have hlen2 : o1'.length = (done ++ [e]).length := by
+          have h1 := absOf_length hash r.t o1' hinv'
+          have h2 := absOf_length hash nt o1 hnt
+          rw [habs'] at h1
+          simp at h1 ⊢
+          omega
+        have := ih (done ++ [e]) r.t o1' fuel (by rw [ho]; simp) hinv' (Nat.le_trans hsz hsz') habs2 hlen2
+          (by simp at hf; omega)
+        simpa using this
+      · rw [if_pos (by rw [hret]; decide)]
+        exact ⟨none, rfl, Or.inl ⟨rfl, by rw [hlen] at hbig; omega⟩⟩
+
+theorem resizeWith_gen (hash : K → Nat) (f : Nat) (hins : InsOK (V := V) hash f) (t : Table K V) (o : List Nat)
+    (h : Inv hash t o) (n : Nat) (h1 : 0 < n) (h2 : n ≤ intMax) (hfuel : intMax ≤ n * 2 ^ f) :
+    ∃ r, resizeWith (insFn hash f) t n = .ok r ∧ r.tags = [] ∧ r.freed = [] ∧
+      ((r.ret = 0 ∧ ∃ o', Inv hash r.t o' ∧ n ≤ r.t.size ∧ absOf r.t o' = absOf t o ∧ o'.length = o.length) ∨
+       (r.ret = -1 ∧ r.t = t ∧ intMax / 4 ≤ o.length)) := by
+  obtain ⟨nt0, hnew, hinv0, hsz0⟩ := new_inv (V := V) hash n h1 h2
+  unfold resizeWith
+  rw [hnew]
+  dsimp only
+  obtain ⟨r, hr, hcase⟩ := rebuildLoop_gen hash f hins t o h n hfuel o [] nt0 [] (t.slots.length + 1)
+    (by simp) hinv0 (by rw [hsz0]; exact Nat.le_refl _) rfl rfl (by rw [h.len_slots]; have := h.count_le; omega)
+  rw [h.head_eq, hr]
+  have hflag := resizeKeepsArgSize_false
+  rcases hcase with ⟨hn, hbig⟩ | ⟨nt', o', hs, hinv', hsz', habs', hlen'⟩
+  · subst hn
+    exact ⟨_, rfl, rfl, rfl, Or.inr ⟨rfl, rfl, hbig⟩⟩
+  · subst hs
+    dsimp only
+    refine ⟨_, rfl, ?_, rfl, Or.inl ⟨rfl, o', ?_, ?_, ?_, hlen'⟩⟩
+    · dsimp only
+      rw [if_neg]; intro hc; rw [hflag] at hc; exact absurd hc.1 (by decide)
+    · have e : ({ t with slots := nt'.slots, next := nt'.next, prev := nt'.prev,
+                         size := if lhResizeKeepsArgSize = true then n else nt'.size,
+                         head := nt'.head, tail := nt'.tail } : Table K V) = { nt' with count := t.count } := by
+        rw [hflag]
+        cases nt'
+        simp
+      rw [e]
+      exact inv_set_count hash nt' o' hinv' t.count (by rw [h.count_eq, hlen'])
+    · dsimp only; rw [hflag]; simpa using hsz'
+    · rw [← habs']
+      exact absOf_congr nt' _ o' (fun _ _ => rfl)
+
+/-- lh_table_insert_w_hash through any depth of resize recursion -/
+theorem insOK_all (hash : K → Nat) : ∀ f, InsOK (V := V) hash f := by
+  intro f
+  induction f with
+  | zero =>
+    intro t o k v c hinv hnew hfuel
+    cases hl : loadTest t.count t.size with
+    | false =>
+      rw [insertN_noload hash 0 t k v (hash k) c hl]
+      have hroom : o.length < t.size := by
+        have := lt_size_of_loadTest_false t.count t.size hinv.size_le hl
+        rw [hinv.count_eq] at this
+        exact_mod_cast this
+      obtain ⟨n', t', hpl, hn', hno', hinv', hsz', hslots'⟩ := place_spec hash t o hinv k v c hroom hnew
+      rw [hpl]
+      exact ⟨_, rfl, rfl, rfl, Or.inl ⟨rfl, o ++ [n'], hinv',
+        absOf_place t t' o n' k v c (by rw [hinv.len_slots]; exact hn') hno' hslots', by rw [hsz']; exact Nat.le_refl _⟩⟩
+    | true =>
+      have hmax : t.size = intMax := by
+        have := hinv.size_le
+        simp at hfuel; omega
+      rw [insertN_full hash 0 t k v (hash k) c hl hmax]
+      refine ⟨_, rfl, rfl, rfl, Or.inr ⟨rfl, rfl, ?_⟩⟩
+      have := size_le_of_loadTest o.length t.size hinv.size_le (by rw [← hinv.count_eq]; exact hl)
+      omega
+  | succ f ih =>
+    intro t o k v c hinv hnew hfuel
+    cases hl : loadTest t.count t.size with
+    | false =>
+      rw [insertN_noload hash (f + 1) t k v (hash k) c hl]
+      have hroom : o.length < t.size := by
+        have := lt_size_of_loadTest_false t.count t.size hinv.size_le hl
+        rw [hinv.count_eq] at this
+        exact_mod_cast this
+      obtain ⟨n', t', hpl, hn', hno', hinv', hsz', hslots'⟩ := place_spec hash t o hinv k v c hroom hnew
+      rw [hpl]
+      exact ⟨_, rfl, rfl, rfl, Or.inl ⟨rfl, o ++ [n'], hinv',
+        absOf_place t t' o n' k v c (by rw [hinv.len_slots]; exact hn') hno' hslots', by rw [hsz']; exact Nat.le_refl _⟩⟩
+    | true =>
+      have hhalf := size_le_of_loadTest o.length t.size hinv.size_le (by rw [← hinv.count_eq]; exact hl)
+      by_cases hmax : t.size = intMax
+      · rw [insertN_full hash (f + 1) t k v (hash k) c hl hmax]
+        exact ⟨_, rfl, rfl, rfl, Or.inr ⟨rfl, rfl, by omega⟩⟩
+      · unfold insertN
+        rw [if_pos hl, if_neg (by unfold INT_MAX; exact hmax)]
+        dsimp only
+        have hszle := hinv.size_le
+        have hcl := hinv.count_le
+        have hpos := hinv.size_pos
+        have hns : ∃ ns, (if t.size > INT_MAX / 2 then INT_MAX else t.size * 2) = ns ∧ 0 < ns ∧ ns ≤ intMax ∧ t.size < ns ∧
+            intMax ≤ ns * 2 ^ f := by
+          unfold INT_MAX
+          by_cases hb : t.size > intMax / 2
+          · rw [if_pos hb]
+            refine ⟨_, rfl, by omega, Nat.le_refl _, by omega, ?_⟩
+            exact Nat.le_mul_of_pos_right _ (Nat.two_pow_pos f)
+          · rw [if_neg hb]
+            refine ⟨_, rfl, by omega, by omega, by omega, ?_⟩
+            rw [Nat.mul_assoc, ← Nat.pow_succ']; exact hfuel
+        obtain ⟨ns, hnse, hns0, hnsle, hnsgt, hnsfuel⟩ := hns
+        rw [hnse]
+        obtain ⟨r, hr, htags, hfreed, hcase⟩ := resizeWith_gen hash f ih t o hinv ns hns0 hnsle hnsfuel
+        have hfn : (fun nt k' v' c' => insertN hash f nt k' v' (hash k') c') = insFn (V := V) hash f := rfl
+        rw [hfn, hr]
+        dsimp only
+        rcases hcase with ⟨hret, o', hinv', hsz', habs', hlen'⟩ | ⟨hret, ht, hbig⟩
+        · rw [if_neg (by rw [hret]; decide)]
+          have hroom : o'.length < r.t.size := by rw [hlen']; omega
+          have hknew : ∀ (p : Nat) (v' : V) (c' : Bool), r.t.slots[p]? ≠ some (Slot.live k v' c') := by
+            rw [← not_mem_keys_iff hash r.t o' hinv' k, habs', not_mem_keys_iff hash t o hinv k]
+            exact hnew
+          obtain ⟨n', t', hpl, hn', hno', hinv2, hsz2, hslots2⟩ := place_spec hash r.t o' hinv' k v c hroom hknew
+          rw [hpl]
+          dsimp only
+          refine ⟨_, rfl, htags, rfl, Or.inl ⟨rfl, o' ++ [n'], hinv2, ?_, by rw [hsz2]; omega⟩⟩
+          rw [absOf_place r.t t' o' n' k v c (by rw [hinv'.len_slots]; exact hn') hno' hslots2, habs']
+        · rw [if_pos (by rw [hret]; decide)]
+          exact ⟨_, rfl, rfl, rfl, Or.inr ⟨rfl, rfl, hbig⟩⟩
+
+/-- lh_table_resize(t, n) for every positive `n` an int can hold -/
+theorem resize_spec (hash : K → Nat) (t : Table K V) (o : List Nat) (h : Inv hash t o) (n : Nat)
+    (h1 : 0 < n) (h2 : n ≤ intMax) :
+    ∃ r, resize hash t n = .ok r ∧ r.tags = [] ∧ r.freed = [] ∧
+      ((r.ret = 0 ∧ ∃ o', Inv hash r.t o' ∧ n ≤ r.t.size ∧ absOf r.t o' = absOf t o ∧ o'.length = o.length) ∨
+       (r.ret = -1 ∧ r.t = t ∧ intMax / 4 ≤ o.length)) := by
+  have hfuel : intMax ≤ n * 2 ^ insertFuel := by
+    have h3 : intMax ≤ 2 ^ insertFuel := by decide
+    exact Nat.le_trans h3 (Nat.le_mul_of_pos_left _ h1)
+  exact resizeWith_gen hash insertFuel (insOK_all hash insertFuel) t o h n h1 h2 hfuel
+
 end JsonC.Linkhash
